@@ -90,7 +90,7 @@ theorem C01_values (D H bs : Nat) (mode : Bool) (leafIdx : List Nat) (upper : Na
   have s0l : ∀ l i, s0.l l i = 0 := by intro l i; rw [← hs0]; exact empty_l l i
   have s0r : ∀ p, s0.r p = 0 := by intro p; rw [← hs0]; exact empty_r p
   -- state after P2M
-  obtain ⟨p1m, p1l, p1r⟩ := phase_p2m (wq q) (H-1) T.partsOf (if H > upper then ls.map fun l => Call.p2m l.idx l.parts else [])
+  obtain ⟨p1m, p1l, p1r⟩ := phase_p2m (wq q) (H-1) T.partsOf T.partsOf (if H > upper then ls.map fun l => Call.p2m l.idx l.parts else [])
     (by
       intro c hc
       split at hc
@@ -177,8 +177,8 @@ theorem C01_values (D H bs : Nat) (mode : Bool) (leafIdx : List Nat) (upper : Na
           ((m2lLevels H upper).flatMap fun l => m2lLevel D false l (T.level l)))
         ((midLevels H upper).flatMap fun l => l2lLevel D l (T.level l) (T.level (l + 1))))
       ((if H > upper then ls.map fun l => Call.l2p l.idx l.parts else []) ++ p2pAll D false H T.leafGroups)).r p =
-      (if upper ≤ H - 1 then Aval D (H-1) upper cellsAt lfb.idx upper (anc D (H-1) upper lfa.idx) +
-          sumA D (H-1) lfa.idx (Aval D (H-1) upper cellsAt lfb.idx) upper (H - 1 - upper) else 0) +
+      (if upper ≤ H - 1 then Aval D (H-1) upper cellsAt cellsAt lfb.idx upper (anc D (H-1) upper lfa.idx) +
+          sumA D (H-1) lfa.idx (Aval D (H-1) upper cellsAt cellsAt lfb.idx) upper (H - 1 - upper) else 0) +
       (if Elem.p2p lfb.idx lfa.idx (p2pCode D (H-1) lfa.idx lfb.idx) ∈ specP2P D false (H-1) (ls.map (·.idx)) then 1 else 0) +
       (if Elem.p2p lfa.idx lfb.idx (p2pCode D (H-1) lfb.idx lfa.idx) ∈ specP2P D false (H-1) (ls.map (·.idx)) then 1 else 0) +
       ((if lfa.idx = lfb.idx then 1 else 0) - wq q p) := by
@@ -186,7 +186,7 @@ theorem C01_values (D H bs : Nat) (mode : Bool) (leafIdx : List Nat) (upper : Na
     · have huL : upper ≤ H - 1 := by omega
       rw [midLevels_eq, m2lLevels_eq]
       -- upward pass
-      obtain ⟨m1, m2, m3, m4⟩ := m2m_pass q D (H-1) T.partsOf cellsAt lfb.idx (fun ℓ => by rw [← hcA]; exact hnd ℓ)
+      obtain ⟨m1, m2, m3, m4⟩ := m2m_pass q D (H-1) T.partsOf T.partsOf cellsAt lfb.idx (fun ℓ => by rw [← hcA]; exact hnd ℓ)
         (fun ℓ hℓ => by rw [← hcA]; exact hanc _ hb ℓ hℓ) upper
         (fun ℓ => m2mLevel D ℓ (T.level ℓ) (T.level (ℓ+1))) (fun ℓ => m2mLevel_form D ℓ _ _) (H - 1 - upper) (by omega)
         (fun ℓ h1 h2 => by rw [← hcA]; exact m2m_level_elems F ℓ (by omega)) s1
@@ -205,7 +205,7 @@ theorem C01_values (D H bs : Nat) (mode : Bool) (leafIdx : List Nat) (upper : Na
       -- transfer phase
       have e1 : H - upper = H - 1 + 1 - upper := by omega
       rw [e1]
-      obtain ⟨t1, t2, t3⟩ := m2l_phase_eval q D (H-1) T.partsOf cellsAt lfb.idx (fun ℓ => by rw [← hcA]; exact hnd ℓ) upper huL
+      obtain ⟨t1, t2, t3⟩ := m2l_phase_eval q D (H-1) T.partsOf T.partsOf cellsAt cellsAt lfb.idx (fun ℓ => by rw [← hcA]; exact hnd ℓ) (fun ℓ => by rw [← hcA]; exact hnd ℓ) upper huL
         ((List.range' upper (H - 1 + 1 - upper)).flatMap fun l => m2lLevel D false l (T.level l))
         (by
           intro c hc
@@ -221,11 +221,11 @@ theorem C01_values (D H bs : Nat) (mode : Bool) (leafIdx : List Nat) (upper : Na
         s2 (fun ℓ j h1 h2 => m1 ℓ j h1 h2) (fun lv i => by rw [m3, s1l])
       generalize applyCalls (wq q) (H-1) T.partsOf T.partsOf s2 ((List.range' upper (H - 1 + 1 - upper)).flatMap fun l => m2lLevel D false l (T.level l)) = s3 at *
       -- downward pass
-      obtain ⟨d1, d2, d3⟩ := l2l_pass q D (H-1) T.partsOf cellsAt lfa.idx (fun ℓ => by rw [← hcA]; exact hnd ℓ)
-        (fun ℓ hℓ => by rw [← hcA]; exact hanc _ ha ℓ hℓ) (Aval D (H-1) upper cellsAt lfb.idx)
+      obtain ⟨d1, d2, d3⟩ := l2l_pass q D (H-1) T.partsOf T.partsOf cellsAt lfa.idx (fun ℓ => by rw [← hcA]; exact hnd ℓ)
+        (fun ℓ hℓ => by rw [← hcA]; exact hanc _ ha ℓ hℓ) (Aval D (H-1) upper cellsAt cellsAt lfb.idx)
         (fun ℓ => l2lLevel D ℓ (T.level ℓ) (T.level (ℓ+1))) (fun ℓ => l2lLevel_form D ℓ _ _) (H - 1 - upper) upper (by omega)
         (fun ℓ h1 h2 => by rw [← hcA]; exact l2l_level_elems F ℓ (by omega)) s3
-        (Aval D (H-1) upper cellsAt lfb.idx upper (anc D (H-1) upper lfa.idx)) (t1 _ _) (fun ℓ i _ => t1 ℓ i)
+        (Aval D (H-1) upper cellsAt cellsAt lfb.idx upper (anc D (H-1) upper lfa.idx)) (t1 _ _) (fun ℓ i _ => t1 ℓ i)
       generalize applyCalls (wq q) (H-1) T.partsOf T.partsOf s3 ((List.range' upper (H - 1 - upper)).flatMap fun l => l2lLevel D l (T.level l) (T.level (l + 1))) = s4 at *
       have e2 : upper + (H - 1 - upper) = H - 1 := by omega
       rw [e2, anc_leaf] at d1
@@ -245,7 +245,7 @@ theorem C01_values (D H bs : Nat) (mode : Bool) (leafIdx : List Nat) (upper : Na
       simp [hact, huL]
   rw [key]
   subst hcells
-  have ft := far_total D (H-1) upper (ls.map (·.idx)) lfa.idx lfb.idx ha hb hu
+  have ft := far_total D (H-1) upper (ls.map (·.idx)) (ls.map (·.idx)) lfa.idx lfb.idx ha hb hu
   rw [ft]
   have hwq : wq q p = if p = q then 1 else 0 := rfl
   rw [hwq]
